@@ -188,3 +188,164 @@ Theorem C17_multi_tzid_addressing : forall d k v,
   (forall vtz, length vtz <> 1%nat -> ical_get vtz None = Err EValue).
 Proof. exact multi_tzid_addressing_lemma. Qed.
 Print Assumptions C17_multi_tzid_addressing.
+
+
+(* ======== LINK to C01 / C13 (area coq/link, notes/link.md): the RRULE text -> onset list step.
+   The theorems above take the onsets of the DAYLIGHT / STANDARD components to be the POSIX start / end
+   events (comp_daylight / comp_standard).  In a VTIMEZONE they are given as
+   `DTSTART:<first onset>` + `RRULE:FREQ=YEARLY;BYMONTH=m;BYDAY=<n><WD>`; here that recurrence rule is
+   shown to produce exactly those events, (a) by the rrule SPECIFICATION (rr/RRSpec.v), (b) through rr's
+   headline theorem by the rrule MODEL (normalize / iterate), (c) from the TEXT through the model of
+   rrulestr's keyword parsing (rstr/RstrModel.v).  BYDAY = -1WD for w = 5 ("last"), +wWD otherwise --
+   w = 4 and "last" differ exactly in months with five such weekdays, as in POSIX. *)
+From V Require Import rstr.RstrPrim rstr.RstrModel.
+From V Require Import rr.RRBase rr.RRNorm rr.RRIter rr.RRSpec link.LinkSpec link.LinkModel link.LinkIcal
+  link.LinkText link.LinkChain.
+
+(* (a) specification: the sequence is the rule date of y0, y0+1, ... at the DTSTART's time of day,
+   one per year, until the limit / the fuel / year 9999 (years_yielded counts them) *)
+Theorem C17_rrule_spec_is_posix_dates : forall m w d H M S y0,
+  1 <= m <= 12 -> 1 <= w <= 5 -> 0 <= d <= 6 -> valid_hms H M S = true -> 1 <= y0 <= 9999 ->
+  forall limit fuel, fst (spec_iter (yearly_rule m w d H M S y0) limit fuel) =
+  map (fun y => (date_of (DM m w d) y, tod H M S)) (PosixThm.zrange (years_yielded fuel limit 0 y0) y0).
+Proof. exact spec_iter_is_posix_dates. Qed.
+Print Assumptions C17_rrule_spec_is_posix_dates.
+
+(* (b) model: the constructor accepts the rule and the iteration yields the same sequence *)
+Theorem C17_rrule_model_is_posix_dates : forall m w d H M S y0,
+  1 <= m <= 12 -> 1 <= w <= 5 -> 0 <= d <= 6 -> valid_hms H M S = true -> 1 <= y0 <= 9999 ->
+  exists rl, normalize (yearly_rule m w d H M S y0) = RRBase.Ok rl /\
+    forall limit n, fst (iterate rl limit n) =
+      map (fun y => (date_of (DM m w d) y, tod H M S)) (PosixThm.zrange (years_yielded n limit 0 y0) y0).
+Proof. exact iterate_is_posix_dates. Qed.
+Print Assumptions C17_rrule_model_is_posix_dates.
+
+(* the k-th yielded instant is the rule date of year y0 + k *)
+Theorem C17_rrule_kth_onset : forall m w d H M S y0,
+  1 <= m <= 12 -> 1 <= w <= 5 -> 0 <= d <= 6 -> valid_hms H M S = true -> 1 <= y0 <= 9999 ->
+  forall rl limit n k, normalize (yearly_rule m w d H M S y0) = RRBase.Ok rl ->
+  (k < years_yielded n limit 0 y0)%nat ->
+  nth_error (fst (iterate rl limit n)) k = Some (date_of (DM m w d) (y0 + Z.of_nat k), tod H M S).
+Proof. exact iterate_nth. Qed.
+Print Assumptions C17_rrule_kth_onset.
+
+(* with enough fuel and limit the sequence runs to year 9999 *)
+Theorem C17_rrule_runs_to_9999 : forall fuel limit len y, y <= 10000 ->
+  10000 - y <= Z.of_nat fuel -> 10000 - y <= limit - len ->
+  years_yielded fuel limit len y = Z.to_nat (10000 - y).
+Proof. exact years_yielded_full. Qed.
+Print Assumptions C17_rrule_runs_to_9999.
+
+(* THE INSTANTIATION: the onset lists the rrule model computes for the two components ARE the
+   onset lists of comp_daylight / comp_standard (as wall readings in seconds) *)
+Theorem C17_rrule_onsets_are_posix_events :
+  forall (z : posix) (ds : dstpart) (ms ws dds Hs Ms Ss me we dde He Me Se : Z),
+  d_start ds = mkPrule (DM ms ws dds) (tod Hs Ms Ss) ->
+  d_end ds = mkPrule (DM me we dde) (tod He Me Se) ->
+  1 <= ms <= 12 /\ 1 <= ws <= 5 /\ 0 <= dds <= 6 /\ valid_hms Hs Ms Ss = true ->
+  1 <= me <= 12 /\ 1 <= we <= 5 /\ 0 <= dde <= 6 /\ valid_hms He Me Se = true ->
+  forall y0, 1 <= y0 <= 9999 ->
+  forall (rlS rlE : rule) (limit : Z) (n : nat),
+  normalize (rule_daylight ms ws dds Hs Ms Ss y0) = RRBase.Ok rlS ->
+  normalize (rule_standard me we dde He Me Se y0) = RRBase.Ok rlE ->
+  map inst_code (fst (iterate rlS limit n)) = c_onsets (comp_daylight z ds y0 (years_yielded n limit 0 y0)) /\
+  map inst_code (fst (iterate rlE limit n)) = c_onsets (comp_standard z ds y0 (years_yielded n limit 0 y0)).
+Proof. exact rrule_onsets_are_posix_events. Qed.
+Print Assumptions C17_rrule_onsets_are_posix_events.
+
+Theorem C17_rrule_components_accepted : forall ms ws dds Hs Ms Ss me we dde He Me Se : Z,
+  1 <= ms <= 12 /\ 1 <= ws <= 5 /\ 0 <= dds <= 6 /\ valid_hms Hs Ms Ss = true ->
+  1 <= me <= 12 /\ 1 <= we <= 5 /\ 0 <= dde <= 6 /\ valid_hms He Me Se = true ->
+  forall y0, 1 <= y0 <= 9999 ->
+  exists rlS rlE, normalize (rule_daylight ms ws dds Hs Ms Ss y0) = RRBase.Ok rlS /\
+                  normalize (rule_standard me we dde He Me Se y0) = RRBase.Ok rlE.
+Proof. exact rules_normalize. Qed.
+Print Assumptions C17_rrule_components_accepted.
+
+(* ... hence C17_ical_equiv_range for the zone whose components carry the RRULE-defined onsets *)
+Theorem C17_ical_rrule_equiv_range :
+  forall (z : posix) (ds : dstpart), p_dst z = Some ds ->
+  forall ms ws dds Hs Ms Ss me we dde He Me Se : Z,
+  d_start ds = mkPrule (DM ms ws dds) (tod Hs Ms Ss) ->
+  d_end ds = mkPrule (DM me we dde) (tod He Me Se) ->
+  1 <= ms <= 12 /\ 1 <= ws <= 5 /\ 0 <= dds <= 6 /\ valid_hms Hs Ms Ss = true ->
+  1 <= me <= 12 /\ 1 <= we <= 5 /\ 0 <= dde <= 6 /\ valid_hms He Me Se = true ->
+  forall y0, 1 <= y0 <= 9999 -> wf_posix z = true -> guard_apart z = true ->
+  forall (rlS rlE : rule) (limit : Z) (n : nat) (zone : zone) (wl : Z) (f : bool) (cs : list comp),
+  normalize (rule_daylight ms ws dds Hs Ms Ss y0) = RRBase.Ok rlS ->
+  normalize (rule_standard me we dde He Me Se y0) = RRBase.Ok rlE ->
+  zone_for z ds zone ->
+  cs = [rrule_comp_daylight z ds rlS limit n; rrule_comp_standard z ds rlE limit n] \/
+  cs = [rrule_comp_standard z ds rlE limit n; rrule_comp_daylight z ds rlS limit n] ->
+  y0 < year_of_secs wl < y0 + Z.of_nat (years_yielded n limit 0 y0) ->
+  ic_observe_wall cs wl f = observe_wall zone wl f.
+Proof. exact ical_rrule_equiv_range. Qed.
+Print Assumptions C17_ical_rrule_equiv_range.
+
+(* (c) text: the RRULE line the generator writes parses to the keyword arguments, whose rr-side
+   record (LinkChain.raw_of_kw: the only glue definition) is yearly_rule, whose occurrences are the
+   POSIX rule dates *)
+Theorem C17_rrule_text_parses : forall m w d, 1 <= m <= 12 -> 1 <= w <= 5 -> 0 <= d <= 6 ->
+  parse_rrule_kw false (zs "RRULE:"%string ++ rrule_text m w d) = RstrModel.Ok (kw_yearly m w d).
+Proof. exact rrule_line_parses. Qed.
+Print Assumptions C17_rrule_text_parses.
+
+Theorem C17_rrule_text_yields_posix_dates : forall m w d H M S y0 us tz,
+  1 <= m <= 12 -> 1 <= w <= 5 -> 0 <= d <= 6 -> valid_hms H M S = true -> 1 <= y0 <= 9999 ->
+  exists k r rl,
+    parse_rrule_kw false (zs "RRULE:"%string ++ rrule_text m w d) = RstrModel.Ok k /\
+    raw_of_kw (mkdt y0 m (date_of (DM m w d) y0 - ord_of_ymd y0 m 1 + 1) H M S us tz) k = Some r /\
+    normalize r = RRBase.Ok rl /\
+    forall limit n, fst (iterate rl limit n) =
+      map (fun y => (date_of (DM m w d) y, tod H M S)) (PosixThm.zrange (years_yielded n limit 0 y0) y0).
+Proof. exact rrule_text_yields_posix_dates. Qed.
+Print Assumptions C17_rrule_text_yields_posix_dates.
+
+(* ============================================================================================
+   REGENERATED-FROM-SOURCE obligations.  coq/gen/IcalGen.v is rewritten by harness/gen_posix.py
+   from the Python AST of /repo/src/dateutil/tz/tz.py on every run; see props/C08.v for the rules. *)
+From V Require Import gen.IcalGen posix.IcalGenThm.
+
+(* tz._tzicalvtz: _find_compdt, utcoffset, dst, tzname (the call self._find_comp(dt) is read as the
+   stateless component selection, justified by C17_cache_never_changes_an_answer and
+   C17_interleaved_lookups_are_stateless) *)
+Theorem C17_gen_tzicalvtz : forall cs c w f,
+  gen_find_compdt cs c w f = find_compdt c w f /\
+  gen_ic_utcoffset cs w f = ic_utcoffset cs w f /\
+  gen_ic_dst cs w f = ic_dst cs w f /\
+  gen_ic_tzname cs w f = ic_tzname cs w f.
+Proof. exact gen_tzicalvtz_lemma. Qed.
+Print Assumptions C17_gen_tzicalvtz.
+
+(* tz.tzical._parse_offset *)
+Theorem C17_gen_parse_offset : forall s, gen_parse_offset s = parse_offset s.
+Proof. exact gen_parse_offset_eq. Qed.
+Print Assumptions C17_gen_parse_offset.
+
+(* the lock discipline of _tzicalvtz._find_comp in the SOURCE (every access to _cachedate /
+   _cachecomp inside `with self._cache_lock`, computed from the AST) is the one under which
+   C17_interleaved_lookups_are_stateless holds (atomic_hit = true) *)
+Theorem C17_gen_lock_discipline : gen_cache_access_under_lock = true.
+Proof. exact gen_lock_discipline. Qed.
+Print Assumptions C17_gen_lock_discipline.
+
+(* tzical._parse_rfc passes compatible=True (and ignoretz=True) to rrulestr: DTSTART itself is an
+   onset of its component, as comp_daylight / comp_standard assume for the first year *)
+Theorem C17_gen_rrulestr_dtstart_is_onset : gen_rrulestr_dtstart_is_onset = true.
+Proof. exact gen_rrulestr_dtstart_lemma. Qed.
+Print Assumptions C17_gen_rrulestr_dtstart_is_onset.
+
+(* the rruleset wrapper: tzical calls rrulestr(..., compatible=True), which wraps the rule in an
+   rruleset and adds DTSTART as an rdate; with rset's C10 theorem (heapq discipline) the set yields
+   exactly the rule's own sequence = the POSIX rule dates as wall seconds *)
+From V Require Import rset.RSetModel rset.RSetSpec rset.RSetHist rset.RSetThm rset.RSetHeapq rset.RSetHeapqThm link.LinkSet.
+
+Theorem C17_rruleset_wrapper_is_posix_dates : forall m w d H M S y0,
+  1 <= m <= 12 -> 1 <= w <= 5 -> 0 <= d <= 6 -> RRBase.valid_hms H M S = true -> 1 <= y0 <= 9999 ->
+  forall rl limit n,
+  normalize (yearly_rule m w d H M S y0) = RRBase.Ok rl -> (0 < years_yielded n limit 0 y0)%nat ->
+  let L := map inst_code (fst (iterate rl limit n)) in
+  rset_iter heap_py [L] [date_of (DM m w d) y0 * DAY + tod H M S] [] [] = Some (L, Some (Z.of_nat (length L))) /\
+  L = map (fun y => date_of (DM m w d) y * DAY + tod H M S) (PosixThm.zrange (years_yielded n limit 0 y0) y0).
+Proof. exact rruleset_wrapper_is_posix_dates. Qed.
+Print Assumptions C17_rruleset_wrapper_is_posix_dates.
